@@ -32,7 +32,7 @@ func TestSweep(t *testing.T) {
 			for i := range all {
 				all[i] = int64(i) - 128
 			}
-			for _, pad := range []int{0, 1024, 4352, 70000} {
+			for _, pad := range []int{0, 1024, 4353, 70001} {
 				Oracle.One(t, env, rec, "sweep", &Case{S: e.S.Name, D: e.D.Name, Amps: all, Pad: pad})
 			}
 			for i := range all {
